@@ -301,7 +301,8 @@ def s17_handover_depends_on_the_token_alone(chk: Check, proj: Project, m, f) -> 
     carried = {t.id for st in ast.walk(f) if isinstance(st, (ast.Assign, ast.AugAssign, ast.AnnAssign)) for t in (st.targets if isinstance(st, ast.Assign) else [st.target]) if isinstance(t, ast.Name)} - {tv}
     cs = [brk]
     bad = []
-    for e, pol in flatten_conj(path_conditions(brk, upto=loop)):
+    for e0, pol in flatten_conj(path_conditions(brk, upto=loop)):
+        e = _inline_loop_temps(e0, loop)
         used = {x.id for x in ast.walk(e) if isinstance(x, ast.Name)} & carried
         if used:
             bad.append((e, sorted(used)))
@@ -522,12 +523,35 @@ def s1_s3(chk: Check, proj: Project, m, f) -> None:
     chk.ob("S1", "util.template_parser:_detailed_tag_parser:token-coordinates", dm.loc(tk[0]) if tk else dm.loc(df), okk, "Token(position=(start, index + start), lineno=<given>)" if okk else "the fixed token's position / line are not (start, start + consumed, given line)")
 
 
+def _inline_loop_temps(e: ast.AST, loop: ast.AST, depth: int = 0) -> ast.AST:
+    """`e` with every local that has exactly ONE definition in the function (a call-free expression) replaced by that
+    definition - so that `has_quote = <test>; if .. and has_quote` reads like the inlined test."""
+    import copy
+
+    fn = next((a for a in ancestors(loop) if isinstance(a, (ast.FunctionDef, ast.AsyncFunctionDef))), loop)
+    e2 = copy.deepcopy(e)
+    if depth > 3:
+        return e2
+
+    class _T(ast.NodeTransformer):
+        def visit_Name(self, n: ast.Name) -> ast.AST:
+            if not isinstance(n.ctx, ast.Load):
+                return n
+            defs = [st for st in ast.walk(fn) if isinstance(st, (ast.Assign, ast.AnnAssign, ast.AugAssign, ast.For, ast.NamedExpr)) and any(isinstance(t, ast.Name) and t.id == n.id for tt in ((st.targets if isinstance(st, ast.Assign) else [st.target])) for t in ast.walk(tt))]
+            if len(defs) == 1 and isinstance(defs[0], (ast.Assign, ast.AnnAssign)) and defs[0].value is not None and any(defs[0] is x for x in ast.walk(loop)) and not any(isinstance(x, (ast.Call, ast.Await, ast.Yield)) for x in ast.walk(defs[0].value)):
+                return _inline_loop_temps(defs[0].value, loop, depth + 1)
+            return n
+
+    return ast.fix_missing_locations(_T().visit(e2))
+
+
 def s4(chk: Check, proj: Project, m, f) -> None:
     chk.rule("S4", "the hand-over condition is exactly: BLOCK token AND a quote character in its contents")
     ifs = [s for s in stmts(f) if isinstance(s, ast.If) and any(isinstance(x, ast.Break) for x in s.body) and any(isinstance(a, ast.For) for a in ancestors(s)) and any(isinstance(x, ast.Assign) and isinstance(x.value, ast.Name) for x in s.body)]
     if len(ifs) != 1:
         raise AnalysisError("parse_template: hand-over test not found")
-    t = ifs[0].test
+    _lp4 = next((a for a in ancestors(ifs[0]) if isinstance(a, ast.For)), None)
+    t = _inline_loop_temps(ifs[0].test, _lp4) if _lp4 is not None else ifs[0].test
     atoms = flatten_conj([(t, True)])
     loopv = next((norm(a.target) for a in ancestors(ifs[0]) if isinstance(a, ast.For)), "token")
     is_block = [a for a, pol in atoms if pol and isinstance(a, ast.Compare) and norm(a) == f"{loopv}.token_type == TokenType.BLOCK"]
